@@ -120,6 +120,20 @@ Theorem C13_ols_equivariance_full :
 Proof. exact ols_full_equivariant. Qed.
 Print Assumptions C13_ols_equivariance_full.
 
+(* (5e) and the weighted fit in full: (X^T W X)^-1 does not involve y, so ga does not enter
+   the covariance matrix; ssr' = ga^2 ssr *)
+Theorem C13_wls_equivariance_full :
+  forall (l : list pt) al be ga de dof fs fs', al <> 0 ->
+  g_line_fit_wls RNum (map px l) (map py l) (map pu l) dof = Ok fs ->
+  g_line_fit_wls RNum (map (fun p => al * px p + be) l) (map (fun p => ga * py p + de) l) (map pu l) dof = Ok fs' ->
+  let cab := fs_r fs * fs_au fs * fs_bu fs in
+  fs_ssr fs' = ga * ga * fs_ssr fs /\
+  fs_bu fs' = fs_bu fs / Rabs al /\
+  fs_au fs' * fs_au fs' = fs_au fs * fs_au fs - 2 * (be / al) * cab + (be / al) * (be / al) * (fs_bu fs * fs_bu fs) /\
+  fs_r fs' * fs_au fs' * fs_bu fs' = (cab - be / al * (fs_bu fs * fs_bu fs)) / al.
+Proof. exact wls_full_equivariant. Qed.
+Print Assumptions C13_wls_equivariance_full.
+
 (* the same algebra for any design (weighted fits): transformed sums, transformed solution *)
 Theorem C13_normal_eqs_equivariant :
   forall S Sx Sy Sxx Sxy a b al be ga de, al <> 0 ->
